@@ -35,9 +35,9 @@ fn new_co() -> Co {
 fn c23_grow_in_coroutine() {
     let co = new_co();
     Co::init_current(&co);
-    let base = co.stack_infos();
-    kani::assert(base.len() == 1, "a new coroutine reports exactly its own stack segment");
-    let seg0 = *base.back().unwrap();
+    // (read through references: cloning the VecDeque of segments three times made the query run out of memory)
+    kani::assert(co.stack_infos_ref().len() == 1, "a new coroutine reports exactly its own stack segment");
+    let seg0 = *co.stack_infos_ref().back().unwrap();
     // the stack pointer is somewhere inside the coroutine's segment
     let sp: usize = kani::any();
     kani::assume(sp >= seg0.stack_bottom && sp <= seg0.stack_top);
@@ -51,7 +51,7 @@ fn c23_grow_in_coroutine() {
     let remaining = sp - seg0.stack_bottom;
     let r = Co::maybe_grow_with(red, size, || {
         let c = Co::current().expect("current coroutine inside the callback");
-        let infos = c.stack_infos();
+        let infos = c.stack_infos_ref();
         unsafe {
             INSIDE_DEPTH = infos.len();
             let last = *infos.back().unwrap();
@@ -72,7 +72,7 @@ fn c23_grow_in_coroutine() {
             kani::assert(INSIDE_LAST.0 >= seg0.stack_top || INSIDE_LAST.1 <= seg0.stack_bottom, "the fresh segment is disjoint from the coroutine's own");
         }
     }
-    let after = co.stack_infos();
+    let after = co.stack_infos_ref();
     kani::assert(after.len() == 1 && *after.back().unwrap() == seg0, "after the call the reported stack segments are as they were before");
     kani::assert(corosensei::stack::verif_live_stacks() == 1, "the fresh segment is released after the call");
     kani::cover!(remaining < red && !alloc_fails, "grown");
